@@ -191,6 +191,7 @@ func runC15(c *Ctx, phase string) {
 		c.Floor(fmt.Sprintf("offset_messages_after_%d_rewrites", i), 200)
 	}
 	c.Floor("message_unknown", 1000)
+	c.Floor("long_prefixes", 300)
 	c.Floor("prefixes_with_or_later_plus", 500)
 	c.Floor("message_expected_id", 500)
 
@@ -237,6 +238,17 @@ func runC15(c *Ctx, phase string) {
 		}
 		if r.Chance(1, 8) {
 			prefix, rewrites, laterPlus = "", 0, 0
+		}
+		if prefix != "" && i%400 == 0 {
+			// a long prefix: offsets beyond 4 KiB / 64 KiB (buffers that get compacted, narrow integers)
+			target := []int{5000, 9000, 20000, 70000}[r.Intn(4)]
+			unit := "(" + prefix + ")"
+			reps := target/(len(unit)+5) + 1
+			prefix = strings.Repeat(unit+" AND ", reps-1) + unit
+			rewrites *= reps
+			laterPlus *= reps
+			c.Inc("long_prefixes")
+			c.Max("longest_prefix_bytes", int64(len(prefix)))
 		}
 		c.CountIf(laterPlus > 0, "prefixes_with_or_later_plus")
 		join := ""
